@@ -110,7 +110,7 @@ def selftest(ctx, tf):
     ctx.notes.append("binding self-test: a balance raised by 777 is reported as NoCreation, lowered by 777 as NoUnauthorisedDebit")
 
 
-FAMILIES = ["base", "stake", "deleg", "alleg", "eth", "eth5", "erc20", "gov", "ons", "olvm"]
+FAMILIES = ["base", "stake", "deleg", "alleg", "eth", "eth5", "erc20", "gov", "ons", "olvm", "bid"]
 
 
 def run(ctx, prop, replay):
